@@ -241,12 +241,13 @@ theorem step_inv (s : St) (op : Op) {log : List Done} (h : Inv s.tbl s.nreq log)
     | failAll => exact failList_inv _ s h
     | ackAll => simp only; split <;> simpa using h
     | enableSm => simpa using h
+    | setSock b => simpa using h
     | recv st =>
       simp only
       split
       · exact streamError_inv s h
       · exact recv_inv s st h
-    | sessionOpened r =>
+    | sessionOpened r _e =>
       simp only
       split
       · simpa using h
@@ -374,6 +375,7 @@ theorem step_reply {s : St} {op : Op} {d : Done} {ty : Ty} {frm : String}
     | failAll => exfalso; have := failList_out _ hd; rw [hh] at this; cases this
     | ackAll => exfalso; simp only at hd; split at hd <;> cases hd
     | enableSm => cases hd
+    | setSock b => cases hd
     | recv st =>
       simp only at hd
       split at hd
@@ -382,7 +384,7 @@ theorem step_reply {s : St} {op : Op} {d : Done} {ty : Ty} {frm : String}
         rw [hh] at hhow
         injection hhow with e1 e2
         exact ⟨st, rfl, hk, ht, e1.symm, e2.symm, e, he, h1, h2, h3, h4⟩
-    | sessionOpened r =>
+    | sessionOpened r _e =>
       exfalso
       simp only at hd
       split at hd
@@ -548,12 +550,13 @@ theorem step_deadEmpty (s : St) (op : Op) (h : DeadEmpty s) : DeadEmpty (step s 
     | failAll => simp [hd'] at hdead
     | ackAll => simp only at hdead; split at hdead <;> simp [hd'] at hdead
     | enableSm => simp [hd'] at hdead
+    | setSock b => simp [hd'] at hdead
     | recv st =>
       simp only at hdead
       split at hdead
       · unfold streamError at hdead; split at hdead <;> simp [hd'] at hdead
       · rw [recv_dead] at hdead; simp [hd'] at hdead
-    | sessionOpened r => simp only at hdead; split at hdead <;> simp [hd'] at hdead
+    | sessionOpened r _e => simp only at hdead; split at hdead <;> simp [hd'] at hdead
     | sessionClosed c => simp only at hdead; split at hdead <;> simp [hd'] at hdead
     | destroy => rfl
 
@@ -578,6 +581,7 @@ theorem step_keeps {s : St} {op : Op} {e : Entry} (hn : (ids s.tbl).Nodup) (he :
     | failAll => exact failList_keeps _ hn he
     | ackAll => simp only; split <;> exact Or.inl he
     | enableSm => exact Or.inl he
+    | setSock b => exact Or.inl he
     | recv st =>
       simp only
       split
@@ -586,7 +590,7 @@ theorem step_keeps {s : St} {op : Op} {e : Entry} (hn : (ids s.tbl).Nodup) (he :
         · exact Or.inr (cancelAll_completes (s := { s with sm := false, sock := false }) he)
         · exact Or.inl he
       · exact recv_keeps hn he
-    | sessionOpened r =>
+    | sessionOpened r _e =>
       simp only
       split
       · exact Or.inl he
@@ -618,6 +622,7 @@ theorem step_trigger {s : St} {op : Op} {e : Entry} (hn : (ids s.tbl).Nodup) (hd
   | failAll => cases ht
   | ackAll => cases ht
   | enableSm => cases ht
+  | setSock b => cases ht
   | recv st =>
     simp only [Trigger, Stanza.answers] at ht
     obtain ⟨hk, hty, hid, hfrm⟩ := ht
@@ -632,7 +637,7 @@ theorem step_trigger {s : St} {op : Op} {e : Entry} (hn : (ids s.tbl).Nodup) (hd
     have h3 : ¬ (st.frm ≠ "" ∧ st.frm ≠ e.to) := by
       rcases hfrm with h | h <;> simp [h]
     simp [h1, h2, hid, hl, h3]
-  | sessionOpened r =>
+  | sessionOpened r _e =>
     simp only [Trigger] at ht
     subst ht
     exact cancelAll_completes he
@@ -743,6 +748,7 @@ theorem step_new {s : St} {op : Op} {e : Entry} (he : e ∈ (step s op).1.tbl) :
     | failAll => exact Or.inl (failList_sub _ he)
     | ackAll => simp only at he; split at he <;> exact Or.inl he
     | enableSm => exact Or.inl he
+    | setSock b => exact Or.inl he
     | recv st =>
       simp only at he
       split at he
@@ -751,7 +757,7 @@ theorem step_new {s : St} {op : Op} {e : Entry} (he : e ∈ (step s op).1.tbl) :
         · cases he
         · exact Or.inl he
       · exact Or.inl (recv_sub he)
-    | sessionOpened r =>
+    | sessionOpened r _e =>
       simp only at he
       split at he
       · exact Or.inl he
@@ -1138,12 +1144,13 @@ theorem step_own (s : St) (op : Op) : (step s op).1.own = s.own := by
     | failAll => simp [failList_own]
     | ackAll => simp only; split <;> rfl
     | enableSm => rfl
+    | setSock b => rfl
     | recv st =>
       simp only
       split
       · unfold streamError; split <;> rfl
       · exact recv_own s st
-    | sessionOpened r => simp only; split <;> rfl
+    | sessionOpened r _e => simp only; split <;> rfl
     | sessionClosed c => simp only; split <;> rfl
     | destroy => simp [cancelAll, failList_own]
 
